@@ -53,7 +53,14 @@ impl Sim {
                         data.truncate(r as usize); // short write
                     }
                 }
-                self.pending.entry(f).or_default().push(POp::Write { off: e.off, data, complete: e.kind == "W", seq: e.seq });
+                // a multi-page write can be torn at page granularity: one pending operation per page
+                if data.len() > 4096 && e.off % 4096 == 0 {
+                    for (i, chunk) in data.chunks(4096).enumerate() {
+                        self.pending.entry(f.clone()).or_default().push(POp::Write { off: e.off + (i as u64) * 4096, data: chunk.to_vec(), complete: e.kind == "W", seq: e.seq * 4096 + i as u64 + 1 });
+                    }
+                } else {
+                    self.pending.entry(f).or_default().push(POp::Write { off: e.off, data, complete: e.kind == "W", seq: e.seq * 4096 });
+                }
             }
             "UC" => {
                 if let Some(v) = self.pending.get_mut(&f) {
@@ -69,7 +76,7 @@ impl Sim {
             }
             "T" => {
                 if e.ret == Some(0) {
-                    self.pending.entry(f).or_default().push(POp::Trunc { len: e.off, seq: e.seq });
+                    self.pending.entry(f).or_default().push(POp::Trunc { len: e.off, seq: e.seq * 4096 });
                 }
             }
             "S" | "D" => {
@@ -94,12 +101,12 @@ impl Sim {
             }
             "C" => {
                 if e.ret.map_or(false, |r| r >= 0) {
-                    self.dir_pending.push(DOp::Create(f, e.seq));
+                    self.dir_pending.push(DOp::Create(f, e.seq * 4096));
                 }
             }
             "U" => {
                 if e.ret == Some(0) {
-                    self.dir_pending.push(DOp::Unlink(f, e.seq));
+                    self.dir_pending.push(DOp::Unlink(f, e.seq * 4096));
                 }
             }
             _ => {}
@@ -162,13 +169,31 @@ impl Sim {
             let empty = Vec::new();
             let dur = self.durable.get(f).unwrap_or(&empty);
             let pen = self.pending.get(f).unwrap_or(&empty);
-            for op in dur.iter().chain(pen.iter().filter(|op| keep(match op { POp::Write { seq, .. } | POp::Trunc { seq, .. } => *seq }))) {
+            for op in dur.iter() {
                 match op {
                     POp::Write { off, data, .. } => {
                         file.write_all_at(data, *off).unwrap();
                     }
                     POp::Trunc { len, .. } => {
                         file.set_len(*len).unwrap();
+                    }
+                }
+            }
+            // pending operations that survive. Appends only survive as a prefix: a write that would
+            // start beyond the current end of the file (because an earlier append was lost) is lost too.
+            let mut cur_len = file.metadata().unwrap().len();
+            for op in pen.iter().filter(|op| keep(match op { POp::Write { seq, .. } | POp::Trunc { seq, .. } => *seq })) {
+                match op {
+                    POp::Write { off, data, .. } => {
+                        if *off > cur_len {
+                            continue;
+                        }
+                        file.write_all_at(data, *off).unwrap();
+                        cur_len = cur_len.max(*off + data.len() as u64);
+                    }
+                    POp::Trunc { len, .. } => {
+                        file.set_len(*len).unwrap();
+                        cur_len = *len;
                     }
                 }
             }
@@ -308,7 +333,7 @@ pub fn run_pl_scenario(sc: &IoScenario, rng: &mut Rng, max_cuts: usize, per_cut:
             sim.materialise(&base, &img, &|s| keep.contains(&s));
             out.images += 1;
             let desc = format!("power loss after event #{} [{} {} {}], surviving unsynced operations: {} ({} of {} pending)", cut, rec.events[cut].kind, rec.events[cut].path, rec.events[cut].off, label, keep.len(), pending.len());
-            match verify_dir(&img, &sc.cfg, &[&old, &new], &keys, &vid_of) {
+            match crate::io::verify_dir_ex(&img, &sc.cfg, &[&old, &new], &keys, &vid_of, true) {
                 Ok(w) => {
                     if w == 0 { out.old += 1 } else { out.new += 1 }
                     if (w == 0 && must_new) || (w == 1 && must_old && old.root != new.root) {
@@ -343,7 +368,7 @@ pub fn run_pl_scenario(sc: &IoScenario, rng: &mut Rng, max_cuts: usize, per_cut:
                         rsim.materialise(&rimg_base, &rimg, &|s| rk.contains(&s));
                         out.nested_images += 1;
                         let d2 = format!("{}; then power loss during recovery after its event #{} [{} {} {}], unsynced operations {}", desc, rc, rrec.events[rc].kind, rrec.events[rc].path, rrec.events[rc].off, rl);
-                        match verify_dir(&rimg, &sc.cfg, &[&old, &new], &keys, &vid_of) {
+                        match crate::io::verify_dir_ex(&rimg, &sc.cfg, &[&old, &new], &keys, &vid_of, true) {
                             Ok(w) => {
                                 if w == 0 {
                                     out.violations.push(("pl-recovery-wrong-side".into(), format!("{}: recovered the old state after the switch-over was durable", d2), head(&d2)));
@@ -353,6 +378,125 @@ pub fn run_pl_scenario(sc: &IoScenario, rng: &mut Rng, max_cuts: usize, per_cut:
                         }
                     }
                 }
+            }
+        }
+    }
+    let _ = std::fs::remove_dir_all(&work);
+    out
+}
+
+/// Two consecutive commits in one process, each touching enough merkle pages for a multi-page WAL
+/// blob: the second sync rewrites the WAL while the first sync's truncation is still unsynced (F8).
+pub fn run_wal_overwrite_scenario(rng: &mut Rng, tag: &str) -> PlOutcome {
+    use crate::gen::*;
+    use crate::sys::Acc;
+    let mut out = PlOutcome { images: 0, cuts: 0, old: 0, new: 0, nested_images: 0, max_pending: 0, violations: vec![], sample: vec![] };
+    let mut cfg = gen_cfg(rng);
+    cfg.rollback = false;
+    cfg.ht = 4096;
+    cfg.cc = *rng.pick(&[1usize, 2]);
+    let mk = |rng: &mut Rng, n: usize| -> Vec<(Key, Acc)> {
+        let mut b: Vec<(Key, Acc)> = (0..n).map(|_| (rng.key(), Acc::Write(Some(gen_value(rng, ValueMix::Small))))).collect();
+        b.sort_by(|a, b| a.0.cmp(&b.0));
+        b.dedup_by(|a, b| a.0 == b.0);
+        b
+    };
+    let b0 = mk(rng, 70);
+    let b1 = mk(rng, 70);
+    let b2 = mk(rng, 70);
+    let mut prefix = vec![Op::Open(cfg.clone())];
+    prefix.extend(commit_ops(1, 1, b0, false));
+    prefix.push(Op::Close);
+    let mut runner = Runner::<H>::new(&format!("plf8-{}", tag), Mask::default());
+    if let Err(m) = runner.run(&prefix) {
+        out.violations.push(("harness-prefix".into(), format!("prefix failed: {:?}", m), String::new()));
+        return out;
+    }
+    let base = runner.dir.clone();
+    let work = fresh_dir(&format!("plf8w-{}", tag));
+    std::fs::create_dir_all(&work).unwrap();
+    let vh = runner.vhashes_snapshot();
+    let old = expect_of(&mut runner, &vh);
+    let ops1 = vec![Op::Begin { s: 2, chain: vec![], witness: false }, Op::Finish { s: 2, c: 2, batch: b1.clone() }, Op::Commit { c: 2, nb: false }];
+    let ops2 = vec![Op::Begin { s: 3, chain: vec![], witness: false }, Op::Finish { s: 3, c: 3, batch: b2.clone() }, Op::Commit { c: 3, nb: false }];
+    runner.model_only(&ops1);
+    let vh1 = runner.vhashes_snapshot();
+    let mid = expect_of(&mut runner, &vh1);
+    runner.model_only(&ops2);
+    let vh2 = runner.vhashes_snapshot();
+    let new = expect_of(&mut runner, &vh2);
+    let mut keys: Vec<Key> = runner.touched.iter().copied().collect();
+    for k in new.kv.keys() {
+        if !keys.contains(k) {
+            keys.push(*k);
+        }
+    }
+    let vids = runner.vals_snapshot();
+    let vid_of = |b: &[u8]| vids.get(&crate::model::digest(b)).copied();
+    let mut child_ops = vec![Op::Open(cfg.clone()), Op::Arm];
+    child_ops.extend(ops1.iter().cloned());
+    child_ops.extend(ops2.iter().cloned());
+    child_ops.push(Op::Disarm);
+    let script = work.join("target.script");
+    std::fs::write(&script, crate::sys::script_to_text(&child_ops)).unwrap();
+    let head = |extra: &str| -> String {
+        format!("# E-io power-loss scenario: two consecutive commits with multi-page WAL blobs in one process\n# {}\n# --- prefix\n{}# --- child script\n{}", extra, crate::sys::script_to_text(&prefix), crate::sys::script_to_text(&child_ops))
+    };
+    let d0 = work.join("rec");
+    copy_dir(&base, &d0);
+    let spool = work.join("spool");
+    std::fs::create_dir_all(&spool).unwrap();
+    let rec = run_child_spool(&d0, &script, &work.join("rec.log"), &spool);
+    if rec.code != Some(0) || !rec.stdout.contains("DONE") {
+        out.violations.push(("record-run".into(), format!("uninterrupted run failed: exit {:?} {}", rec.code, rec.stdout.replace('\n', " | ")), head("uninterrupted run fails")));
+        return out;
+    }
+    // the window: from the second sync's first WAL event to its WAL fsync
+    let wal_syncs: Vec<usize> = rec.events.iter().enumerate().filter(|(_, e)| e.armed.is_some() && e.kind == "S" && e.path == "wal").map(|(i, _)| i).collect();
+    let metas: Vec<usize> = rec.events.iter().enumerate().filter(|(_, e)| e.armed.is_some() && e.kind == "S" && e.path == "meta").map(|(i, _)| i).collect();
+    if wal_syncs.len() < 2 || metas.len() < 2 {
+        let _ = std::fs::remove_dir_all(&work);
+        return out;
+    }
+    let wal_pages: Vec<u64> = rec.events.iter().filter(|e| e.armed.is_some() && e.kind == "W" && e.path == "wal").map(|e| e.len / 4096).collect();
+    out.sample = vec![format!("WAL blob sizes in pages: {:?}", wal_pages)];
+    let start = metas[0] + 1;
+    let end = wal_syncs[1];
+    for cut in start..=end {
+        if rec.events[cut].armed.is_none() || rec.events[cut].path != "wal" {
+            continue;
+        }
+        let mut sim = Sim::default();
+        for e in &rec.events[..=cut] {
+            sim.apply(e, &spool);
+        }
+        let pending = sim.pending_list();
+        out.max_pending = out.max_pending.max(pending.len());
+        out.cuts += 1;
+        let wal_pending: Vec<u64> = pending.iter().filter(|p| p.0 == "wal").map(|p| p.1).collect();
+        let others: Vec<u64> = pending.iter().filter(|p| p.0 != "wal").map(|p| p.1).collect();
+        // choices over the WAL's pending operations (truncations and page writes), everything else kept
+        let mut sets: Vec<(String, Vec<u64>)> = vec![("wal-all-lost".into(), vec![]), ("wal-all-kept".into(), wal_pending.clone())];
+        for i in 0..wal_pending.len().min(10) {
+            sets.push((format!("wal-only-kept#{}", i), vec![wal_pending[i]]));
+            sets.push((format!("wal-only-lost#{}", i), wal_pending.iter().copied().filter(|s| *s != wal_pending[i]).collect()));
+        }
+        // the F8 shape: truncations lost, first new page lost, later new pages kept
+        let writes: Vec<u64> = wal_pending.iter().copied().filter(|s| s % 4096 != 0).collect();
+        if writes.len() >= 2 {
+            sets.push(("wal-truncation-and-first-page-lost-rest-kept".into(), writes[1..].to_vec()));
+        }
+        for (label, keepw) in sets {
+            let mut keep = keepw.clone();
+            keep.extend(others.iter().copied());
+            let img = work.join("img");
+            sim.materialise(&base, &img, &|s| keep.contains(&s));
+            out.images += 1;
+            let desc = format!("power loss while the second of two consecutive syncs rewrites the WAL (after event #{} [{} {} {} len {}]), surviving unsynced WAL operations: {} ({} of {})", cut, rec.events[cut].kind, rec.events[cut].path, rec.events[cut].off, rec.events[cut].len, label, keepw.len(), wal_pending.len());
+            match verify_dir(&img, &cfg, &[&old, &mid, &new], &keys, &vid_of) {
+                Ok(1) => out.new += 1,
+                Ok(w) => out.violations.push(("pl-wrong-side".into(), format!("{}: recovered the {} state, but the first commit had returned and the second had not switched over", desc, if w == 0 { "initial" } else { "final" }), head(&desc))),
+                Err(e) => out.violations.push(("pl-wal-overwrite".into(), format!("{}: {}", desc, e), head(&desc))),
             }
         }
     }
@@ -371,7 +515,8 @@ fn expect_of(runner: &mut Runner<H>, vh: &HashMap<u32, [u8; 32]>) -> Expect {
     }
     let t = crate::model::eval_table::<H>(&runner.model.ask_multi("table"), &vhf);
     let seqn: u32 = runner.model.ask("seqn").parse().unwrap();
-    Expect { kv, root: t.root, seqn }
+    let deep = crate::io::deep_of(&mut runner.model, &vhf);
+    Expect { kv, root: t.root, seqn, deep }
 }
 
 fn run_child_spool(dir: &Path, script: &Path, log: &Path, spool: &Path) -> ChildRun {
@@ -424,6 +569,13 @@ pub fn cmd_pl(kv: &HashMap<String, String>) -> i32 {
     }
     for h in hs {
         h.join().unwrap();
+    }
+    // consecutive multi-page WAL syncs (the WAL rewrite window)
+    let n_f8 = kv.get("waln").and_then(|s| s.parse().ok()).unwrap_or(if thorough { 12 } else { 3 });
+    for i in 0..n_f8 {
+        let mut r = rng.fork();
+        let o = std::panic::catch_unwind(std::panic::AssertUnwindSafe(|| run_wal_overwrite_scenario(&mut r, &format!("{}", i))));
+        results.lock().unwrap().push((1000 + i, "two-commits-wal-rewrite".to_string(), o));
     }
     let mut results = std::mem::take(&mut *results.lock().unwrap());
     results.sort_by_key(|r| r.0);
